@@ -131,7 +131,8 @@ func (chain *BlockChain) ProcGetHeadersMsg(requestblock *types.ReqBlocks) (resph
 		chainlog.Error("ProcGetHeadersMsg input must Start <= End:", "Startheight", requestblock.Start, "Endheight", requestblock.End)
 		return nil, types.ErrEndLessThanStartHeight
 	}
-	if requestblock.End-requestblock.Start >= types.MaxHeaderCountPerTime {
+	//Start为负数时End-Start可能溢出int64变为负值(此处已保证Start <= End), 同样视为超出数量限制
+	if requestblock.End-requestblock.Start >= types.MaxHeaderCountPerTime || requestblock.End-requestblock.Start < 0 {
 		return nil, types.ErrMaxCountPerTime
 	}
 	if requestblock.Start > blockhight {
